@@ -410,7 +410,12 @@ static unsigned save_to_argbuf(void *argbuf, struct list_head *args_spec,
 {
 	struct uftrace_arg_spec *spec;
 	unsigned size, total_size = 0;
-	unsigned max_size = ARGBUF_SIZE - sizeof(size);
+	/*
+	 * values are stored first and the total is checked afterwards: keep room
+	 * for the biggest overshoot of one value (struct in 4 registers, string
+	 * terminator) and stop once it passed the limit.
+	 */
+	unsigned max_size = ARGBUF_SIZE - sizeof(size) - 4 * sizeof(long);
 	bool is_retval = !!ctx->retval;
 	void *ptr;
 
@@ -418,6 +423,9 @@ static unsigned save_to_argbuf(void *argbuf, struct list_head *args_spec,
 	list_for_each_entry(spec, args_spec, list) {
 		if (is_retval != (spec->idx == RETVAL_IDX))
 			continue;
+
+		if (total_size > max_size)
+			break;
 
 		if (spec->fmt == ARG_FMT_STRUCT) {
 			if (total_size + spec->size > max_size) {
